@@ -1,6 +1,7 @@
 (* C10 — Arena bookkeeping and reported statistics are always coherent. *)
 From Coq Require Import ZArith List.
-From BS Require Import Word BumpSpec ChunkSpec Arena ArenaInv ArenaStats ArenaExt ArenaInv2 ArenaSizes ArenaHeader ArenaAny.
+From BS Require Import Word BumpSpec ChunkSpec Arena ArenaInv ArenaStats ArenaExt ArenaInv2 ArenaSizes ArenaHeader ArenaAny AllocRefine.
+From BS.gen Require AllocSites.
 Import ListNotations.
 Open Scope Z_scope.
 
@@ -91,6 +92,32 @@ Theorem C10_any_view_pinned_refuted :
   any_allocated 32 (header_of c ch) = 20 /\ allocated_in c ch = 4.
 Proof. exact any_view_pinned_refuted. Qed.
 
+(* how a new chunk's size hint is composed in the CURRENT source (NonDummyChunk::grow_size / append_for in raw_bump.rs,
+   ChunkSizeHint::max / calc_size in chunk/size.rs; cut out and translated on every run): twice the previous chunk's
+   SIZE (an overflowing doubling is an error), the maximum with the required hint, then with the minimum chunk size -
+   exactly the hint the arena model hands to calc_size_from_hint (Arena.new_chunk_size) *)
+Theorem C10_source_grow_size_is_the_models :
+  forall ps, AllocSites.grow_size_hint ps = Ok (if W <=? 2 * ps then None else Some (2 * ps)).
+Proof. exact grow_size_hint_refines. Qed.
+
+Theorem C10_source_hint_composition_is_the_models :
+  forall req grown minimum,
+  AllocSites.hint_max req grown = Ok (Z.max req grown) /\
+  AllocSites.calc_size_hint (Z.max req grown) minimum = Ok (Z.max (Z.max req grown) minimum).
+Proof. exact hint_composition_refines. Qed.
+
+Theorem C10_model_chunk_size_in_those_terms :
+  forall c ps size align,
+  new_chunk_size c (Some ps) size align =
+  (let req := spec_hint (up c) (hs c) (ha c) size align in
+   if W <=? req then None else
+   if W <=? 2 * ps then None else
+   let hint := Z.max (Z.max req (2 * ps)) (min_chunk c) in
+   if W <=? spec_size0 (hs c) (ha c) hint then None else
+   let n := spec_size_from_hint (up c) (hs c) (ha c) hint in
+   if IMAX - (ha c - 1) <? n then None else Some n).
+Proof. exact model_new_chunk_size. Qed.
+
 Print Assumptions C10_stats_identities.
 Print Assumptions C10_reachable.
 Print Assumptions C10_chunks_strictly_grow.
@@ -103,3 +130,6 @@ Print Assumptions C10_live_block_misses_every_header.
 Print Assumptions C10_any_view_is_the_typed_view.
 Print Assumptions C10_any_direction_is_the_typed_one.
 Print Assumptions C10_any_view_pinned_refuted.
+Print Assumptions C10_source_grow_size_is_the_models.
+Print Assumptions C10_source_hint_composition_is_the_models.
+Print Assumptions C10_model_chunk_size_in_those_terms.
